@@ -44,6 +44,28 @@ func (a *act) invEnv(li *loopInfo, st *State) *SEnv {
 // autoInvariants: bounds of range-index loops, checked like user invariants.
 func (a *act) autoInvariants(li *loopInfo, st *State) []string {
 	var out []string
+	if a.fx.lockMode && a.top {
+		w, _ := a.loopWrites(li)
+		h := a.fx.sv(st, "held", ArrS(SRef, SInt))
+		if w["held"] != "" {
+			// lock state at a loop head: locks of pre-existing objects are as at loop entry
+			var h0 string
+			if li.entryState != nil {
+				h0 = a.fx.sv(li.entryState, "held", ArrS(SRef, SInt))
+			} else {
+				h0 = h
+			}
+			if h0 != h {
+				out = append(out, fmt.Sprintf("(forall ((o Ref)) (! (=> (< (epoch o) %s) (= (select %s o) (select %s o))) :pattern ((select %s o))))", a.fx.now(li.entryState), h, h0, h))
+			}
+		}
+		if w["held"] != "" || w["$now"] != "" {
+			// locks of objects allocated since function entry are free, unless they were already held at loop entry
+			if li.entryState != nil {
+				out = append(out, fmt.Sprintf("(forall ((o Ref)) (! (=> (and (>= (epoch o) %s) (< (epoch o) %s)) (= (select %s o) 0)) :pattern ((select %s o))))", a.fx.now(li.entryState), a.fx.now(st), h, h))
+			}
+		}
+	}
 	for _, in := range li.header.Instrs {
 		phi, ok := in.(*ssa.Phi)
 		if !ok {
@@ -605,7 +627,7 @@ func (a *act) applyContract(sp *FuncSpec, fn *ssa.Function, m *types.Func, args 
 		}
 		fx.ctx.Assert(Imp(guard, fmt.Sprintf("(forall ((o %s)) (! (=> %s (= (select %s o) (select %s o))) :pattern ((select %s o))))", k, cond, newT, oldT, newT)))
 	}
-	if !sp.Pure {
+	if _, noalloc := sp.Flags["noalloc"]; !sp.Pure && !noalloc {
 		n := fx.havocSV(st, "$now", SInt)
 		fx.ctx.Assert(fmt.Sprintf("(>= %s %s)", n, nowBefore))
 	}
@@ -639,6 +661,11 @@ func (a *act) applyContract(sp *FuncSpec, fn *ssa.Function, m *types.Func, args 
 	}
 	// everything a callee returns was allocated before it returned
 	a.allocatedFacts(out, st, guard)
+	if fx.lockMode {
+		// objects allocated by the callee come back with their locks free (checked for every verified function at its returns)
+		h := fx.sv(st, "held", ArrS(SRef, SInt))
+		fx.ctx.Assert(Imp(guard, fmt.Sprintf("(forall ((o Ref)) (! (=> (and (>= (epoch o) %s) (< (epoch o) %s)) (= (select %s o) 0)) :pattern ((select %s o))))", nowBefore, fx.now(st), h, h)))
+	}
 	return out
 }
 
